@@ -612,10 +612,11 @@ func genEnc(g *h.Gen) {
 		main      int
 		comb      []int
 	}{
-		{"xterm", "US-ASCII", int(tcell.RuneBullet), nil}, // last acsc pair `~~`
-		{"ansi", "ISO8859-1", int(tcell.RuneHLine), nil},  // terminal character 0xC4
-		{"vt220", "ISO8859-1", int(tcell.RuneHLine), nil}, // smacs/rmacs with padding
-		{"xterm", "ISO8859-6", 0x4e16, []int{0x64b}},      // wide '?' followed by an encodable combining mark
+		{"xterm", "US-ASCII", int(tcell.RuneBullet), nil},   // last acsc pair `~~`
+		{"ansi", "ISO8859-1", int(tcell.RuneHLine), nil},    // terminal character 0xC4
+		{"vt220", "ISO8859-1", int(tcell.RuneHLine), nil},   // smacs/rmacs with padding
+		{"vt420", "US-ASCII", int(tcell.RuneULCorner), nil}, // the other entry with padding
+		{"xterm", "ISO8859-6", 0x4e16, []int{0x64b}},        // wide '?' followed by an encodable combining mark
 	} {
 		if cd := newCodec(d.cs); cd != nil {
 			rs := append([]rune{rune(d.main)}, toRunes(d.comb)...)
